@@ -125,7 +125,13 @@ def run_engine(labels, opts, order=None, late_width=False):
     from labella.node import Node
     seq = labels if order is None else [labels[i] for i in order]
     if late_width:
-        nodes = [Node(p, 50, ("d", i)) for i, (p, w) in enumerate(seq)]
+        nodes = [Node(p, 50 if late_width != 2 else 1, ("d", i)) for i, (p, w) in enumerate(seq)]
+        if late_width == 2:
+            # ... and the labels were already laid out once with the placeholder width (text re-measured afterwards):
+            # whatever the first layout left on the nodes must not reach the second
+            f0 = Force(dict(opts))
+            f0.nodes(nodes)
+            f0.compute()
         for n, (p, w) in zip(nodes, seq):
             n.width = w
     else:
@@ -738,12 +744,16 @@ def run_layout_shard(prop, shard):
                 opts = config_for(ci, labels, nconf, menu)
                 info = _Info(acc)
                 late = (idx + ci) % 4 == 3  # every 4th case builds its nodes the way Timeline does
+                if late and (idx + ci) % 8 == 7:
+                    late = 2  # every 8th: laid out once with the placeholder widths first
                 bad = evaluate(prop, labels, opts, info, late)
                 acc.evals += 1
                 acc.trans += 1
                 any_nt |= info.nontrivial
                 if late:
                     acc.counters["late_width_cases"] += 1
+                if late == 2:
+                    acc.counters["relayout_after_width_change_cases"] += 1
                 if info.nontrivial:
                     acc.nontriv += 1
                 if bad:
@@ -839,7 +849,7 @@ def replay_layout(prop, case):
     if case.get("timeline"):
         bad = evaluate_timeline(prop, labels, case["opts"], _Info(acc))
         return (bad[0] + ":timeline", bad[1]) if bad else None
-    return evaluate(prop, labels, case["opts"], _Info(acc), bool(case.get("late_width")))
+    return evaluate(prop, labels, case["opts"], _Info(acc), int(case.get("late_width") or 0))
 
 
 def snippet_layout(case):
